@@ -2029,4 +2029,307 @@ theorem edge_in_region (poly : List Vec) (C : ConvexPoly poly) (g : Vec × Vec) 
     rw [e2] at s2
     nlinarith [mul_nonneg (sub_nonneg.mpr t1) s1, mul_nonneg t0 s2]
 
+/-! ### segment – convex polygon -/
+
+theorem projPlane_along (c n a b : Vec) (t : Rat) (hc : c.length = 3) (hn : n.length = 3) (ha : a.length = 3)
+    (hb : b.length = 3) (hnn : nsq n ≠ 0) :
+    projPlane c n (along a b t) = along (projPlane c n a) (projPlane c n b) t := by
+  obtain ⟨n1, n2, n3, rfl⟩ := len3 n hn
+  obtain ⟨c1, c2, c3, rfl⟩ := len3 c hc
+  obtain ⟨a1, a2, a3, rfl⟩ := len3 a ha
+  obtain ⟨b1, b2, b3, rfl⟩ := len3 b hb
+  have hN : n1 * n1 + (n2 * n2 + n3 * n3) ≠ 0 := by simpa [nsq] using hnn
+  simp only [projPlane, along, nsq, vsub_cons, vsub_nil_left, smul_cons, smul_nil, vadd_cons, vadd_nil_left,
+    dot_cons, dot_nil_left, add_zero]
+  refine List.cons_eq_cons.mpr ⟨?_, List.cons_eq_cons.mpr ⟨?_, List.cons_eq_cons.mpr ⟨?_, rfl⟩⟩⟩ <;>
+    (field_simp; ring)
+
+theorem along_along (s e : Vec) (a b l : Rat) (h : s.length = e.length) :
+    along (along s e a) (along s e b) l = along s e (a + l * (b - a)) := by
+  unfold along
+  induction s generalizing e with
+  | nil => simp
+  | cons x xs ih => cases e with
+    | nil => simp at h
+    | cons y ys =>
+      simp at h
+      simp only [vsub_cons, smul_cons, vadd_cons]
+      rw [ih ys h]
+      congr 1
+      ring
+
+theorem projPlane_fix (c n x : Vec) (hn : n.length = x.length) (h : dot (vsub x c) n = 0) : projPlane c n x = x := by
+  unfold projPlane
+  rw [h]
+  simp only [zero_div]
+  clear h
+  induction x generalizing n with
+  | nil => simp
+  | cons a as ih => cases n with
+    | nil => simp at hn
+    | cons m ms => simp at hn; simp [ih ms hn]
+
+theorem sq_interp {h0 hm l : Rat} (hle : h0 * h0 ≤ hm * hm) (l0 : 0 ≤ l) (l1 : l ≤ 1) :
+    ((1 - l) * h0 + l * hm) * ((1 - l) * h0 + l * hm) ≤ hm * hm := by
+  have e : hm * hm - ((1 - l) * h0 + l * hm) * ((1 - l) * h0 + l * hm)
+      = (1 - l) * (1 - l) * (hm * hm - h0 * h0) + 2 * l * (1 - l) * (hm * hm - h0 * hm) := by ring
+  have h2 : 0 ≤ hm * hm - h0 * hm := by nlinarith [mul_self_nonneg (hm - h0)]
+  have : 0 ≤ (1 - l) * (1 - l) * (hm * hm - h0 * h0) + 2 * l * (1 - l) * (hm * hm - h0 * hm) :=
+    add_nonneg (mul_nonneg (mul_self_nonneg _) (by linarith))
+      (mul_nonneg (mul_nonneg (by linarith) (by linarith)) h2)
+  linarith
+
+/-- spec of the general branch -/
+theorem segPolyGeneral_spec (tolS : Rat) (s e : Vec) (poly : List Vec) :
+    (segPolyGeneral tolS s e poly).d2 ≤ (ptPoly s poly).d2 ∧ (segPolyGeneral tolS s e poly).d2 ≤ (ptPoly e poly).d2 ∧
+    (∀ g ∈ edges poly, (segPolyGeneral tolS s e poly).d2 ≤ (segSeg tolS s e g.1 g.2).d2) ∧
+    ((segPolyGeneral tolS s e poly).d2 = (ptPoly s poly).d2 ∨ (segPolyGeneral tolS s e poly).d2 = (ptPoly e poly).d2 ∨
+      ∃ g ∈ edges poly, (segPolyGeneral tolS s e poly).d2 = (segSeg tolS s e g.1 g.2).d2) := by
+  unfold segPolyGeneral
+  simp only []
+  cases hm : minSegSeg tolS s e (edges poly) with
+  | none =>
+    have he : edges poly = [] := by
+      cases hE : edges poly with
+      | nil => rfl
+      | cons g gs =>
+        rw [hE] at hm
+        unfold minSegSeg at hm
+        simp only [] at hm
+        cases h' : minSegSeg tolS s e gs <;> rw [h'] at hm <;> simp at hm
+        split at hm <;> simp at hm
+    simp only []
+    rw [he]
+    split_ifs with hlt
+    · exact ⟨hlt.le, le_refl _, fun g hg => by simp at hg, Or.inr (Or.inl rfl)⟩
+    · exact ⟨le_refl _, not_lt.mp hlt, fun g hg => by simp at hg, Or.inl rfl⟩
+  | some o =>
+    obtain ⟨m1, g, hg, m2⟩ := minSegSeg_spec _ _ _ _ _ hm
+    simp only []
+    split_ifs with hlt h2 h2
+    · exact ⟨by simp only [] at h2 ⊢; linarith, by simp only [] at h2 ⊢; exact h2.le, fun g' hg' => m1 g' hg',
+        Or.inr (Or.inr ⟨g, hg, by rw [m2]⟩)⟩
+    · exact ⟨hlt.le, le_refl _, fun g' hg' => le_trans (not_lt.mp h2) (m1 g' hg'), Or.inr (Or.inl rfl)⟩
+    · exact ⟨by simp only [] at h2 ⊢; exact h2.le, by simp only [] at h2 ⊢; linarith [not_lt.mp hlt],
+        fun g' hg' => m1 g' hg', Or.inr (Or.inr ⟨g, hg, by rw [m2]⟩)⟩
+    · exact ⟨le_refl _, not_lt.mp hlt, fun g' hg' => le_trans (not_lt.mp h2) (m1 g' hg'), Or.inl rfl⟩
+
+theorem segPoly_cases (tolP tolS : Rat) (s e : Vec) (poly : List Vec) :
+    (segPoly tolP tolS s e poly).d2 = 0 ∨
+      (crossPoint tolP s e poly = none ∧ segPoly tolP tolS s e poly = segPolyGeneral tolS s e poly) := by
+  cases hx : crossPoint tolP s e poly with
+  | some x0 => left; rw [segPoly_some tolP tolS s e poly x0 hx]
+  | none =>
+    unfold segPoly
+    rw [hx]
+    simp only []
+    split_ifs
+    · exact Or.inl rfl
+    · exact Or.inl rfl
+    · exact Or.inr ⟨trivial, rfl⟩
+
+theorem ptPoly_inside_d2 (p : Vec) (poly : List Vec) (hin : (ptPoly p poly).inside = true) :
+    (ptPoly p poly).d2 = dot (vsub p (centroid poly)) (normal poly) * dot (vsub p (centroid poly)) (normal poly) / nsq (normal poly) := by
+  have hI : inPoly poly (normal poly) (projPlane (centroid poly) (normal poly) p) = true := by
+    by_contra hI
+    unfold ptPoly at hin
+    simp only [] at hin
+    rw [if_neg hI] at hin
+    split at hin <;> simp at hin
+  unfold ptPoly
+  simp only []
+  rw [if_pos hI]
+
+theorem ptPoly_outside_test (p : Vec) (poly : List Vec) (hout : (ptPoly p poly).inside = false) :
+    inPoly poly (normal poly) (projPlane (centroid poly) (normal poly) p) = false := by
+  by_contra hI
+  have hI : inPoly poly (normal poly) (projPlane (centroid poly) (normal poly) p) = true := by
+    cases h : inPoly poly (normal poly) (projPlane (centroid poly) (normal poly) p) with
+    | true => rfl
+    | false => exact absurd h hI
+  unfold ptPoly at hout
+  simp only [] at hout
+  rw [if_pos hI] at hout
+  simp at hout
+
+/-- from a parameter `ν0` whose projected point is not strictly inside the polygon towards a parameter `μ` whose
+    projection is in the polygon one meets a point over the boundary; its height bounds a segment–edge distance -/
+theorem seg_poly_key (poly : List Vec) (C : ConvexPoly poly) (tolS : Rat) (htol : 0 < tolS) (s e : Vec)
+    (hs : s.length = 3) (he : e.length = 3)
+    (hss : ∀ g ∈ edges poly, (segSeg tolS s e g.1 g.2).exact = true)
+    (v0 mu : Rat) (v00 : 0 ≤ v0) (v01 : v0 ≤ 1) (mu0 : 0 ≤ mu) (mu1 : mu ≤ 1)
+    (hout : ∃ g ∈ edges poly, side3 (normal poly) g.1 g.2 (projPlane (centroid poly) (normal poly) (along s e v0)) ≤ 0)
+    (hin : InRegion poly (projPlane (centroid poly) (normal poly) (along s e mu)))
+    (hle : dot (vsub (along s e v0) (centroid poly)) (normal poly) * dot (vsub (along s e v0) (centroid poly)) (normal poly)
+      ≤ dot (vsub (along s e mu) (centroid poly)) (normal poly) * dot (vsub (along s e mu) (centroid poly)) (normal poly)) :
+    ∃ g ∈ edges poly, (segSeg tolS s e g.1 g.2).d2 ≤
+      dot (vsub (along s e mu) (centroid poly)) (normal poly) * dot (vsub (along s e mu) (centroid poly)) (normal poly) / nsq (normal poly) := by
+  have hnn : 0 < nsq (normal poly) := lt_of_le_of_ne (nsq_nonneg _) (Ne.symm C.nn)
+  have hse : s.length = e.length := by rw [hs, he]
+  have lP : ∀ v : Rat, (along s e v).length = 3 := fun v => by rw [length_along _ _ _ hse, hs]
+  have lQ : ∀ v : Rat, (projPlane (centroid poly) (normal poly) (along s e v)).length = 3 := fun v => by
+    rw [length_projPlane _ _ _ (by rw [C.nlen, lP v]), lP v]
+  have pQ : ∀ v : Rat, dot (vsub (projPlane (centroid poly) (normal poly) (along s e v)) (centroid poly)) (normal poly) = 0 :=
+    fun v => projPlane_in_plane _ _ _ (by rw [C.clen, lP v]) (by rw [C.nlen, lP v]) C.nn
+  obtain ⟨g, hg, t, l, t0, t1, l0, l1, e1⟩ := convex_entry poly C _ _ (lQ v0) (pQ v0) hin hout
+  refine ⟨g, hg, ?_⟩
+  obtain ⟨la, lb⟩ := C.len3 g hg
+  -- the boundary point is the projection of the point with parameter v = v0 + l (mu - v0)
+  have e2 : along (projPlane (centroid poly) (normal poly) (along s e v0)) (projPlane (centroid poly) (normal poly) (along s e mu)) l
+      = projPlane (centroid poly) (normal poly) (along s e (v0 + l * (mu - v0))) := by
+    rw [← projPlane_along _ _ _ _ l C.clen C.nlen (lP v0) (lP mu) C.nn, along_along _ _ _ _ _ hse]
+  have v0' : 0 ≤ v0 + l * (mu - v0) := by nlinarith [mul_nonneg l0 mu0, mul_nonneg (sub_nonneg.mpr l1) v00]
+  have v1' : v0 + l * (mu - v0) ≤ 1 := by nlinarith [mul_nonneg l0 (sub_nonneg.mpr mu1), mul_nonneg (sub_nonneg.mpr l1) (sub_nonneg.mpr v01)]
+  have hmin := segSeg_min tolS htol s e g.1 g.2 hse (by rw [hs, la]) (by rw [la, lb]) (hss g hg)
+    (v0 + l * (mu - v0)) t v0' v1' t0 t1
+  rw [← e1, e2, nsq_to_projPlane _ _ _ (by rw [C.nlen, lP]) C.nn] at hmin
+  refine le_trans hmin ?_
+  rw [div_le_div_iff_of_pos_right hnn]
+  -- heights are affine in the parameter
+  rw [along_height _ _ _ _ _ hse (by rw [C.clen, hs])] at hle ⊢
+  rw [along_height _ _ _ _ mu hse (by rw [C.clen, hs])] at hle ⊢
+  generalize dot (vsub s (centroid poly)) (normal poly) = a at hle ⊢
+  generalize dot (vsub e (centroid poly)) (normal poly) = b at hle ⊢
+  have := sq_interp (h0 := a + v0 * (b - a)) (hm := a + mu * (b - a)) (l := l) hle l0 l1
+  have e3 : a + (v0 + l * (mu - v0)) * (b - a) = (1 - l) * (a + v0 * (b - a)) + l * (a + mu * (b - a)) := by ring
+  rw [e3]
+  exact this
+
+/-- an accepted/rejected projection is not strictly inside unless the test says so (contrapositive of completeness) -/
+theorem not_strictly_inside (poly : List Vec) (C : ConvexPoly poly) (q : Vec) (hq : q.length = 3)
+    (pq : dot (vsub q (centroid poly)) (normal poly) = 0) (h : inPoly poly (normal poly) q = false) :
+    ∃ g ∈ edges poly, side3 (normal poly) g.1 g.2 q ≤ 0 := by
+  by_contra hno
+  have := inPoly_complete poly C q hq pq (fun g hg => by
+    by_contra hle
+    exact hno ⟨g, hg, not_lt.mp hle⟩)
+  rw [this] at h
+  exact absurd h (by decide)
+
+/-- an end point of the segment as reference parameter -/
+theorem seg_poly_endpoint (poly : List Vec) (C : ConvexPoly poly) (tolS : Rat) (htol : 0 < tolS) (s e : Vec)
+    (hs : s.length = 3) (he : e.length = 3)
+    (hss : ∀ g ∈ edges poly, (segSeg tolS s e g.1 g.2).exact = true)
+    (v0 mu : Rat) (hv : v0 = 0 ∨ v0 = 1) (mu0 : 0 ≤ mu) (mu1 : mu ≤ 1)
+    (hin : InRegion poly (projPlane (centroid poly) (normal poly) (along s e mu)))
+    (hle : dot (vsub (along s e v0) (centroid poly)) (normal poly) * dot (vsub (along s e v0) (centroid poly)) (normal poly)
+      ≤ dot (vsub (along s e mu) (centroid poly)) (normal poly) * dot (vsub (along s e mu) (centroid poly)) (normal poly)) :
+    (segPolyGeneral tolS s e poly).d2 ≤
+      dot (vsub (along s e mu) (centroid poly)) (normal poly) * dot (vsub (along s e mu) (centroid poly)) (normal poly) / nsq (normal poly) := by
+  have hnn : 0 < nsq (normal poly) := lt_of_le_of_ne (nsq_nonneg _) (Ne.symm C.nn)
+  have hse : s.length = e.length := by rw [hs, he]
+  obtain ⟨g1, g2, g3, _⟩ := segPolyGeneral_spec tolS s e poly
+  have lw : (along s e v0).length = 3 := by rw [length_along _ _ _ hse, hs]
+  have hw : (segPolyGeneral tolS s e poly).d2 ≤ (ptPoly (along s e v0) poly).d2 := by
+    rcases hv with h | h
+    · rw [h, along_zero _ _ hse]; exact g1
+    · rw [h, along_one _ _ hse]; exact g2
+  cases hI : (ptPoly (along s e v0) poly).inside with
+  | true =>
+    refine le_trans hw ?_
+    rw [ptPoly_inside_d2 _ _ hI, div_le_div_iff_of_pos_right hnn]
+    exact hle
+  | false =>
+    have ht := ptPoly_outside_test _ _ hI
+    have hout := not_strictly_inside poly C _ (by rw [length_projPlane _ _ _ (by rw [C.nlen, lw]), lw])
+      (projPlane_in_plane _ _ _ (by rw [C.clen, lw]) (by rw [C.nlen, lw]) C.nn) ht
+    have v00 : 0 ≤ v0 := by rcases hv with h | h <;> rw [h] <;> norm_num
+    have v01 : v0 ≤ 1 := by rcases hv with h | h <;> rw [h] <;> norm_num
+    obtain ⟨g, hg, hk⟩ := seg_poly_key poly C tolS htol s e hs he hss v0 mu v00 v01 mu0 mu1 hout hin hle
+    exact le_trans (g3 g hg) hk
+
+/-- `segments_polygon` on a convex planar polygon returns the true distance (lower-bound part): no pair of a point of
+    the segment and a point of the polygon is closer than the returned distance.  Hypotheses: the segment–segment
+    kernel is in its exact regime for every boundary segment, and the incline of the segment over the plane is
+    either exactly zero or above the tolerance `tolP` (no incline inside the tolerance band). -/
+theorem segPoly_min_convex (poly : List Vec) (C : ConvexPoly poly) (tolP tolS : Rat) (htol : 0 < tolS) (s e : Vec)
+    (hs : s.length = 3) (he : e.length = 3)
+    (hss : ∀ g ∈ edges poly, (segSeg tolS s e g.1 g.2).exact = true)
+    (hinc : dot (vsub e (centroid poly)) (normal poly) - dot (vsub s (centroid poly)) (normal poly) = 0 ∨
+      tolP * tolP * nsq (normal poly) <
+        (dot (vsub e (centroid poly)) (normal poly) - dot (vsub s (centroid poly)) (normal poly)) *
+        (dot (vsub e (centroid poly)) (normal poly) - dot (vsub s (centroid poly)) (normal poly)))
+    (mu : Rat) (mu0 : 0 ≤ mu) (mu1 : mu ≤ 1) (x : Vec) (hx : InRegion poly x) :
+    (segPoly tolP tolS s e poly).d2 ≤ nsq (vsub (along s e mu) x) := by
+  rcases segPoly_cases tolP tolS s e poly with h0 | ⟨hcp, hgen⟩
+  · rw [h0]; exact nsq_nonneg _
+  rw [hgen]
+  have hnn : 0 < nsq (normal poly) := lt_of_le_of_ne (nsq_nonneg _) (Ne.symm C.nn)
+  have hse : s.length = e.length := by rw [hs, he]
+  obtain ⟨_, _, g3, _⟩ := segPolyGeneral_spec tolS s e poly
+  have lz : (along s e mu).length = 3 := by rw [length_along _ _ _ hse, hs]
+  have hcl : (centroid poly).length = (along s e mu).length := by rw [C.clen, lz]
+  have hnl : (normal poly).length = (along s e mu).length := by rw [C.nlen, lz]
+  have lQ : (projPlane (centroid poly) (normal poly) (along s e mu)).length = 3 := by rw [length_projPlane _ _ _ hnl, lz]
+  have pQ := projPlane_in_plane (centroid poly) (normal poly) (along s e mu) hcl hnl C.nn
+  by_cases hA : ∃ g ∈ edges poly, side3 (normal poly) g.1 g.2 (projPlane (centroid poly) (normal poly) (along s e mu)) ≤ 0
+  · -- the nearest polygon point is on the boundary
+    obtain ⟨g, hg, t, t0, t1, hle⟩ := convex_outside_bound poly C _ lz hA x hx
+    obtain ⟨la, lb⟩ := C.len3 g hg
+    exact le_trans (g3 g hg) (le_trans
+      (segSeg_min tolS htol s e g.1 g.2 hse (by rw [hs, la]) (by rw [la, lb]) (hss g hg) mu t mu0 mu1 t0 t1) hle)
+  · -- the projection is strictly inside: the distance is at least the height over the plane
+    have hinR : InRegion poly (projPlane (centroid poly) (normal poly) (along s e mu)) :=
+      ⟨lQ, pQ, fun g hg => by
+        by_contra h
+        exact hA ⟨g, hg, le_of_lt (not_le.mp h)⟩⟩
+    have hpy := pythagoras_plane (centroid poly) (normal poly) (along s e mu) x hcl hnl (by rw [hx.1, lz]) C.nn hx.2.1
+    have hd : dot (vsub (along s e mu) (centroid poly)) (normal poly) * dot (vsub (along s e mu) (centroid poly)) (normal poly)
+        / nsq (normal poly) ≤ nsq (vsub (along s e mu) x) := by
+      rw [hpy, nsq_to_projPlane _ _ _ hnl C.nn]
+      linarith [nsq_nonneg (vsub (projPlane (centroid poly) (normal poly) (along s e mu)) x)]
+    refine le_trans ?_ hd
+    have hH : ∀ v : Rat, dot (vsub (along s e v) (centroid poly)) (normal poly)
+        = dot (vsub s (centroid poly)) (normal poly) + v * (dot (vsub e (centroid poly)) (normal poly) - dot (vsub s (centroid poly)) (normal poly)) :=
+      fun v => along_height _ _ _ _ v hse (by rw [C.clen, hs])
+    rcases hinc with hdz | hnz
+    · -- constant height: start point as reference
+      apply seg_poly_endpoint poly C tolS htol s e hs he hss 0 mu (Or.inl rfl) mu0 mu1 hinR
+      rw [hH 0, hH mu, hdz]; simp
+    · have hdz : dot (vsub e (centroid poly)) (normal poly) - dot (vsub s (centroid poly)) (normal poly) ≠ 0 := by
+        intro h0
+        rw [h0] at hnz
+        have : 0 ≤ tolP * tolP * nsq (normal poly) := mul_nonneg (mul_self_nonneg _) hnn.le
+        simp at hnz
+        linarith
+      generalize hb : dot (vsub e (centroid poly)) (normal poly) = b at hnz hdz hH
+      generalize ha : dot (vsub s (centroid poly)) (normal poly) = a at hnz hdz hH
+      have hsq : 0 < (b - a) * (b - a) := mul_self_pos.mpr hdz
+      have ht : -a / (b - a) * ((b - a) * (b - a)) = -a * (b - a) := by field_simp
+      by_cases hr : 0 ≤ -a / (b - a) ∧ -a / (b - a) ≤ 1
+      · -- the carrier line meets the plane inside the segment, at a point rejected by the membership test
+        have hparam : crossParam tolP (nsq (normal poly)) a b = some (-a / (b - a)) := by
+          unfold crossParam
+          rw [if_pos hnz, if_pos hr]
+        have hrej : inPoly poly (normal poly) (projPlane (centroid poly) (normal poly) (along s e (-a / (b - a)))) = false := by
+          unfold crossPoint at hcp
+          simp only [] at hcp
+          rw [ha, hb, hparam] at hcp
+          simp only [] at hcp
+          split_ifs at hcp with h
+          simpa using h
+        have lw : (along s e (-a / (b - a))).length = 3 := by rw [length_along _ _ _ hse, hs]
+        have hout := not_strictly_inside poly C _ (by rw [length_projPlane _ _ _ (by rw [C.nlen, lw]), lw])
+          (projPlane_in_plane _ _ _ (by rw [C.clen, lw]) (by rw [C.nlen, lw]) C.nn) hrej
+        have hzero : dot (vsub (along s e (-a / (b - a))) (centroid poly)) (normal poly) = 0 := by
+          rw [hH]; field_simp; ring
+        obtain ⟨g, hg, hk⟩ := seg_poly_key poly C tolS htol s e hs he hss (-a / (b - a)) mu hr.1 hr.2 mu0 mu1 hout hinR
+          (by rw [hzero]; simp; exact mul_self_nonneg _)
+        exact le_trans (g3 g hg) hk
+      · by_cases hr0 : 0 ≤ -a / (b - a)
+        · -- beyond the end point
+          have hr1 : 1 < -a / (b - a) := by
+            by_contra h
+            exact hr ⟨hr0, not_lt.mp h⟩
+          have hbd : b * (b - a) < 0 := by nlinarith
+          apply seg_poly_endpoint poly C tolS htol s e hs he hss 1 mu (Or.inr rfl) mu0 mu1 hinR
+          rw [hH 1, hH mu]
+          nlinarith [mul_nonneg (sub_nonneg.mpr mu1) (mul_nonneg (sub_nonneg.mpr mu1) hsq.le),
+            mul_nonneg (sub_nonneg.mpr mu1) (neg_nonneg.mpr hbd.le)]
+        · -- before the start point
+          have had : 0 < a * (b - a) := by nlinarith [not_le.mp hr0]
+          apply seg_poly_endpoint poly C tolS htol s e hs he hss 0 mu (Or.inl rfl) mu0 mu1 hinR
+          rw [hH 0, hH mu]
+          nlinarith [mul_nonneg mu0 (mul_nonneg mu0 hsq.le), mul_nonneg mu0 had.le]
+
 end PorepyVerif.C30
